@@ -94,9 +94,17 @@ theorem netlocFacts_name {ip : IpOracle} {h : Bytes} (hk : NameOk ip h) (port : 
   have n93 : 93 ∉ plainJoin (quote regNameSafe h) port :=
     not_mem_plainJoin port h93 (by decide) (by decide)
   refine
-    { clean := ?_, brackets := bracketsOk_plain ip n91 n93, hostname := ?_,
-      userinfo := hasUserinfo_plain port h64, port := ⟨port, portOf_plain port h58 h64 h91 hp⟩,
+    { clean := ?_, uriChars := ?_, brackets := bracketsOk_plain ip n91 n93, hostname := ?_,
+      userinfo := hasUserinfo_plain port h64, literal := literalOk_plain n91 n93,
+      port := ⟨port, portOf_plain port h58 h64 h91 hp⟩,
       undecided := undecided_plain ip n91 }
+  rotate_left
+  · intro c hm
+    rcases mem_plainJoin hm with h1 | h1 | h1
+    · exact quote_uriChars (fun _ => regNameSafe_uri) hk.wf c h1
+    · subst h1; decide
+    · exact uriChar_of_digit h1
+  rotate_right
   · intro c hm
     rcases mem_plainJoin hm with h1 | h1 | h1
     · exact ⟨(hc c h1).1, (hc c h1).2.1⟩
@@ -134,9 +142,18 @@ theorem netlocFacts_ip4 {ip : IpOracle} {t : Bytes} (ht : ip4Looking t = true) (
     rcases hc c hm with h | h
     · have := isDigit_range h; simp [isUpper]; omega
     · subst h; decide
+  have huri : ∀ c ∈ plainJoin t port, isUriChar c = true := by
+    intro c hm
+    rcases mem_plainJoin hm with h1 | h1 | h1
+    · rcases hc c h1 with h | h
+      · exact uriChar_of_digit h
+      · subst h; decide
+    · subst h1; decide
+    · exact uriChar_of_digit h1
   refine
-    { clean := ?_, brackets := bracketsOk_plain ip n91 n93, hostname := ?_,
-      userinfo := hasUserinfo_plain port h64, port := ⟨port, portOf_plain port h58 h64 h91 hp⟩,
+    { clean := ?_, uriChars := huri, brackets := bracketsOk_plain ip n91 n93, hostname := ?_,
+      userinfo := hasUserinfo_plain port h64, literal := literalOk_plain n91 n93,
+      port := ⟨port, portOf_plain port h58 h64 h91 hp⟩,
       undecided := undecided_plain ip n91 }
   · intro c hm
     have hd : ∀ c, isDigit c = true → isNetlocDelim c = false ∧ isUnsafeWs c = false := by
@@ -206,9 +223,21 @@ theorem netlocFacts_ip6 {ip : IpOracle} {t : Bytes} (ht : Ip6Text ip t) (port : 
   have hne : t ≠ [] := by intro e; have := ht.colon; rw [e] at this; cases this
   have hshape := bracket_shape (t := t) port
   have hrh := rawHostname_bracket port h64 h93
+  have huri : ∀ c ∈ plainJoin ([91] ++ t ++ [93]) port, isUriChar c = true := by
+    intro c hm
+    rcases mem_plainJoin hm with h1 | h1 | h1
+    · simp only [List.cons_append, List.nil_append, List.mem_cons,
+        List.mem_append, List.not_mem_nil, or_false] at h1
+      rcases h1 with rfl | h1 | rfl
+      · decide
+      · exact ht.uriChars c h1
+      · decide
+    · subst h1; decide
+    · exact uriChar_of_digit h1
   refine
-    { clean := ?_, brackets := ?_, hostname := ?_,
-      userinfo := hasUserinfo_bracket port h64, port := ⟨port, portOf_bracket port h64 h93 hp⟩,
+    { clean := ?_, uriChars := huri, brackets := ?_, hostname := ?_,
+      userinfo := hasUserinfo_bracket port h64, literal := literalOk_bracket port h91 h93 ht.zone,
+      port := ⟨port, portOf_bracket port h64 h93 hp⟩,
       undecided := ?_ }
   · intro c hm
     rcases mem_plainJoin hm with h1 | h1 | h1
